@@ -12,6 +12,7 @@ import (
 	"os"
 	"os/exec"
 	"path/filepath"
+	"regexp"
 	"sort"
 	"strconv"
 	"strings"
@@ -61,6 +62,10 @@ type spec struct {
 }
 
 var specs = map[string]spec{}
+
+// raceTests names, per property, the free-running test that is built with -race and run once
+// after the exhaustive exploration (supporting evidence for the data-race clauses; sampling).
+var raceTests = map[string]string{"C10": "TestVerifC10Race", "C20": "TestVerifC20Race"}
 
 func specFor(id string) spec {
 	if s, ok := specs[id]; ok {
@@ -218,9 +223,22 @@ func main() {
 	plain := filepath.Join(scratch, "plain")
 	ovcli := filepath.Join(scratch, "ovcli")
 	var wg sync.WaitGroup
-	var outs [3]string
-	var errs [3]error
-	wg.Add(3)
+	var outs [4]string
+	var errs [4]error
+	rbin := filepath.Join(scratch, "t-race.bin")
+	raceTest := raceTests[id]
+	if *replay != "" {
+		raceTest = ""
+	}
+	wg.Add(4)
+	go func() {
+		defer wg.Done()
+		if raceTest == "" {
+			return
+		}
+		renv := append(os.Environ(), "GOFLAGS=-mod=mod", "GOPROXY=off", "GOSUMDB=off", "GOTOOLCHAIN=local", "CGO_ENABLED=1")
+		outs[3], errs[3] = run(repo, renv, "go", "test", "-race", "-c", "-overlay", ov.OverlayJSON, "-vet=off", "-o", rbin, ".")
+	}()
 	go func() {
 		defer wg.Done()
 		outs[0], errs[0] = run(repo, env, "go", "test", "-c", "-overlay", ov.OverlayJSON, "-vet=off", "-o", tbin, ".")
@@ -363,6 +381,42 @@ func main() {
 	if *replay != "" {
 		fmt.Print(logs[0])
 	}
+	// free-running -race pass
+	var raceViolations []*violation
+	raceInfo := map[string]any{}
+	if raceTest != "" {
+		work := filepath.Join(scratch, "work-race")
+		os.MkdirAll(work, 0o755)
+		reps := "4"
+		if tier == "thorough" {
+			reps = "25"
+		}
+		e := append(os.Environ(), "VERIF_TIER="+tier, "VERIF_WORK="+work, "VERIF_REPO="+repo, "VERIF_RACE_REPS="+reps, "NO_COLOR=1", "GORACE=halt_on_error=0")
+		log, rerr := run(work, e, rbin, "-test.run", "^"+raceTest+"$", "-test.count=1", "-test.timeout=0")
+		nraces := strings.Count(log, "WARNING: DATA RACE")
+		raceInfo = map[string]any{"test": raceTest, "data_races_reported": nraces, "repetitions_per_gomaxprocs": reps, "gomaxprocs": []int{2, 4, 16}, "note": "sampling; supports the data-race-freedom assumption, does not decide it"}
+		if m := regexp.MustCompile(`VERIF-RACE-RUNS (\d+)`).FindStringSubmatch(log); m != nil {
+			raceInfo["lint_runs"] = m[1]
+		}
+		if nraces > 0 {
+			// first frame inside actionlint of the first report
+			site := "unknown"
+			for _, l := range strings.Split(log, "\n") {
+				l = strings.TrimSpace(l)
+				if strings.HasPrefix(l, "/repo/") && !strings.Contains(l, "zz_verif_") {
+					site = strings.TrimPrefix(strings.Fields(l)[0], "/repo/")
+					break
+				}
+			}
+			i := strings.Index(log, "WARNING: DATA RACE")
+			rb, _ := json.Marshal(map[string]any{"race_report": tailN(log[i:], 60)})
+			raceViolations = append(raceViolations, &violation{Key: "data-race:" + site, Msg: fmt.Sprintf("the race detector reported %d data race(s) in the free-running pass, first at %s", nraces, site), Replay: rb, Count: int64(nraces)})
+		} else if rerr != nil {
+			fmt.Fprintf(os.Stderr, "BROKEN HARNESS: race pass failed: %v\n%s\n", rerr, tail(log, 40))
+			exit(2)
+		}
+	}
+
 	broken := false
 	var crashes []*violation
 	for i := range reports {
@@ -453,6 +507,7 @@ func main() {
 		m.Samples = m.Samples[:8]
 	}
 	m.Violations = append(m.Violations, crashes...)
+	m.Violations = append(m.Violations, raceViolations...)
 	sort.Slice(m.Violations, func(i, j int) bool { return m.Violations[i].Key < m.Violations[j].Key })
 
 	// classify violations against the known-findings file
@@ -496,6 +551,9 @@ func main() {
 		"exhaustive": m.Exhaustive, "bounds": m.Bounds, "caps_hit": m.Caps, "shards": n,
 		"conformance_replay": conf, "overlay": map[string]any{"map_range_sites": len(ov.Sites), "files_rewritten": ov.Rewritten, "go_statements": ov.GoStmts},
 		"known_findings_hit": len(knownLines),
+	}
+	if len(raceInfo) > 0 {
+		cov["race_pass"] = raceInfo
 	}
 	for k, v := range m.Extra {
 		cov[k] = v
@@ -555,6 +613,14 @@ func oneLine(s string, n int) string {
 	return s
 }
 
+func tailN(s string, n int) string {
+	lines := strings.Split(s, "\n")
+	if len(lines) > n {
+		lines = lines[:n]
+	}
+	return strings.Join(lines, "\n")
+}
+
 func tail(s string, n int) string {
 	lines := strings.Split(s, "\n")
 	if len(lines) > n {
@@ -574,12 +640,17 @@ func setup() {
 	if err != nil {
 		fatal(2, "%v", err)
 	}
-	env := goEnv()
-	for _, a := range [][]string{
+	renv := append(os.Environ(), "GOFLAGS=-mod=mod", "GOPROXY=off", "GOSUMDB=off", "GOTOOLCHAIN=local", "CGO_ENABLED=1")
+	for i, a := range [][]string{
 		{"build", "-o", filepath.Join(scratch, "plain"), "./cmd/actionlint"},
 		{"build", "-overlay", ov.OverlayJSON, "-o", filepath.Join(scratch, "ovcli"), "./cmd/actionlint"},
 		{"test", "-c", "-overlay", ov.OverlayJSON, "-vet=off", "-o", filepath.Join(scratch, "t.bin"), "."},
+		{"test", "-race", "-c", "-overlay", ov.OverlayJSON, "-vet=off", "-o", filepath.Join(scratch, "t-race.bin"), "."},
 	} {
+		env := goEnv()
+		if i == 3 {
+			env = renv
+		}
 		if out, err := run(repo, env, "go", a...); err != nil {
 			fatal(2, "setup build failed: %v\n%s", err, out)
 		}
